@@ -11,7 +11,7 @@ import (
 func init() {
 	Registry["C14"] = RuleDef{Module: ".", Run: runC14,
 		Technique:   "emission-grammar rule over the SSA of the command writers (ordered writer calls, operands identified by value), who-may-call rule for the raw writers and the connection's bufio.Writer, immutability of built argv",
-		Explanation: "Decides the framing part of the property: (R14a) writeCmd emits `*`+len(argv) once and then, for every element of argv in slice order, exactly one bulk string; writeB emits `$`+len(s), the very same s, CRLF; writeN emits the id byte, then only digit bytes ('0'+x), then CRLF on every path; flushCmd is writeCmd followed by Flush; (R14b) bytes reach a connection's writer only through these functions, every writeCmd/flushCmd call passes the complete Commands() of one command, and the low-level writers are called by nobody else; (R14c) nothing in package rueidis stores into a built command's argv and Commands() returns the argv itself.",
+		Explanation: "Decides the framing part of the property: (R14a) writeCmd emits `*`+len(argv) once and then, for every element of argv in slice order, exactly one bulk string; writeB emits `$`+len(s), the very same s, CRLF; writeN emits the id byte, then only digit bytes ('0'+x), then CRLF on every path; flushCmd is writeCmd followed by Flush; (R14b) bytes reach a connection's writer only through these functions, every writeCmd/flushCmd call passes the complete Commands() of one command, and the low-level writers are called by nobody else; (R33b-R33f, shared with C33) a command or the batch buffer holding it is recycled only when the pipe can no longer write it; (R14c) nothing in package rueidis stores into a built command's argv and Commands() returns the argv itself.",
 		NotDecided:  "the decimal rendering inside writeN (which digits are produced is arithmetic on the runtime length: float Log10/Pow10; a seeded off-by-one in an integer re-implementation is a value-level fault no rule here decides); the content of argv (C33)."}
 }
 
@@ -21,6 +21,9 @@ var bufWriteMethods = map[string]bool{
 }
 
 func runC14(r *Report) {
+	// what is queued is what gets written: a command (or the batch slice holding it) is not given
+	// back to its pool while the pipe may still have to write it (rules shared with C33)
+	recycleRules(r)
 	p := r.P
 	// writer calls of a function in block order (blocks in dominance pre-order are not needed:
 	// the rules below check order with Dominates on sites)
